@@ -31,6 +31,7 @@ func (v Violation) Key() string {
 }
 
 type Outcome struct {
+	inLib    string // the guarded library call in progress (see guard)
 	log      []string
 	keepLog  bool
 	logHash  uint64
@@ -150,6 +151,12 @@ func RunPlan(t *testing.T, d *ScenarioDef, p Plan, seed uint64, keepLog bool) *O
 	func() {
 		defer func() {
 			if r := recover(); r != nil {
+				if msg := fmt.Sprint(r); strings.Contains(msg, "all goroutines in bubble are blocked") && o.inLib != "" {
+					// the simulation's only runnable goroutine is inside a library call, and that call
+					// waits for something no goroutine will ever provide: it never returns
+					o.Violate("C09", "no-termination", fmt.Sprintf("%s never returns: every goroutine it started or waits for is blocked for good", o.inLib), map[string]string{"entry": o.inLib})
+					return
+				}
 				o.Harness(fmt.Sprintf("panic outside a guarded library call: %v", r))
 			}
 		}()
